@@ -136,6 +136,13 @@ def run_case(case):
                 if waddr is not None and raised is not None:
                     mon.count("refused_for_address_reason")
                     mon.eq("atomic", snapshot(t), before, f"{why}: refused (address) but changed {mm.label}")
+                if c in used_as_window and raised is not None and pred.kind == ACCEPT:
+                    # a window that already has another parent: refusing it is not a naming matter (nothing in C18
+                    # says a map may have two parents), only atomicity is checked
+                    mon.count("second_parent_refused_not_judged")
+                    mon.eq("atomic", snapshot(t), before, f"{why}: refused but changed {mm.label}")
+                    check_paths(t, why)
+                    continue
                 if judge(t, pred, raised, name, why, before):
                     mm.commit_window(id(lives[c]), models[c], name, out[0], out[1], out[2])
                     used_as_window.add(c)
